@@ -13,7 +13,7 @@ from .smt import (T, INT, BOOL, STR, IntV, BoolV, StrV, TRUE, FALSE, And, Or, No
                   Implies, Ite, Eq, Ne, Add, Sub, Lt, Le, Gt, Ge, Len, Concat)
 from .vals import (Undecided, V, VInt, VBool, VStr, VNone, NONE, VVal, VSeq, VTuple,
                    VRef, VFunc, VPy, VBound, VExc, Raised, HList, HPyList, HDict,
-                   HSet, HInst, HObjList, HMap, parse_type, sort_of, wrap)
+                   HSet, HInst, HObjList, HMap, HRecSeq, HIdxList, HOpaque, parse_type, sort_of, wrap)
 from .symexec import Engine, State, VOptSym, UNBOUND, repo_root
 from . import contracts as C
 
@@ -204,6 +204,9 @@ class Exec(Engine):
                 return [(self.snapshot(v, self.old_state), st)]
             if f.id in ('all', 'any') and len(node.args) == 1 and isinstance(node.args[0], (ast.GeneratorExp, ast.ListComp)):
                 return self.quantified(f.id, node.args[0], st, node)
+            if f.id == 'sum' and len(node.args) == 1 and isinstance(node.args[0], (ast.GeneratorExp, ast.ListComp)) \
+                    and st.lookup('sum') is None:
+                return self.sum_comprehension(node.args[0], st, node)
             if f.id == 'implies' and self.pure:
                 a = self.truthy(self.ev1(node.args[0], st), st)
                 if a.lit is not None and not a.lit[1]:
@@ -218,7 +221,7 @@ class Exec(Engine):
                 b = self.iter_state.copy()
                 b.frames, b.parents, b.cur = st.frames, st.parents, st.cur
                 return [(self.snapshot(self.ev1(node.args[0], b), b), st)]
-            if f.id in ('ev_count', 'ev_arg', 'ev_outcome', 'ev_names') and self.pure:
+            if f.id in ('ev_count', 'ev_arg', 'ev_outcome', 'ev_names', 'ev_raised') and self.pure:
                 return [(self.event_query(f.id, node, st), st)]
         out = []
         for fv, s in self.ev(f, st):
@@ -264,8 +267,8 @@ class Exec(Engine):
             if isinstance(o, HPyList) and o.items and all(isinstance(i, (VStr, VInt, VBool)) for i in o.items):
                 seq, elem = self.seq_of(v, st)
                 return VSeq(seq, elem)
-            if isinstance(o, HObjList):
-                return VInt(o.n) if False else v
+            if isinstance(o, HIdxList):
+                return VSeq(o.idx, ('int',))
         return v
 
     def events_of(self, st):
@@ -279,6 +282,8 @@ class Exec(Engine):
         evs = [e for e in self.events_of(st) if e['name'] == name or e['name'].endswith(':' + name) or e['name'].endswith('.' + name)]
         if kind == 'ev_count':
             return VInt(IntV(len(evs)))
+        if kind == 'ev_raised':
+            return VInt(IntV(len([e for e in evs if e['outcome'].startswith('raise')])))
         k = args[1].t.lit[1]
         if k >= len(evs) or k < -len(evs):
             raise Undecided('event %s #%d does not exist on this path (guard the clause with ev_count)' % (name, k), node)
@@ -290,7 +295,7 @@ class Exec(Engine):
         return evs[k]['args'][field]
 
     def log_event(self, st, name, args, outcome):
-        st.events.append({'name': name, 'args': dict(args), 'outcome': outcome})
+        st.events.append({'name': name, 'args': {k: self.snapshot(v, st) for k, v in args.items()}, 'outcome': outcome})
 
     def ev_Dict(self, node, st):
         keys = []
@@ -305,6 +310,59 @@ class Exec(Engine):
             else:
                 out.append((s.alloc(HDict(dict(zip(keys, vals)))), s))
         return out
+
+    def sum_comprehension(self, comp, st, node):
+        """sum(s['f'] for s in xs) over a record sequence: S.count_true / S.int_sum of the field sequence."""
+        from . import reclists, specs_support
+        r = reclists.field_seq_of_comprehension(self, comp, st)
+        if r is None:
+            raise Undecided('sum over a comprehension of unsupported shape: %s' % ast.unparse(comp), node)
+        if r[0] == 'empty':
+            return [(VInt(IntV(0)), st)]
+        seq, p = r
+        if p[0] == 'bool':
+            return [(specs_support.call_spec_by_name(self, 'count_true', [VSeq(seq, p)], st, node), st)]
+        raise Undecided('sum over a field of type %r' % (p,), node)
+
+    pending_defined = []
+
+    def ev_ListComp(self, node, st):
+        from . import reclists
+        if not self.pure:
+            # code: [elt for x in <record list>] with a side-effect free elt -> a fresh list holding the
+            # axiomatised sequence; definedness of functional callees becomes an obligation for every index
+            self.pure += 1
+            saved = self.pending_defined
+            self.pending_defined = []
+            try:
+                r = reclists.comprehension_over_reclist(self, node, st)
+                guards = self.pending_defined
+            finally:
+                self.pure -= 1
+                self.pending_defined = saved
+            if r is not None:
+                var, rl = self.last_comp
+                for g in guards:
+                    goal = smt.ForAll([var], Implies(And(Le(IntV(0), var), Lt(var, rl.n)), g))
+                    self.oblige('pre', 'comprehension-element-defined', st, goal, node)
+                return [(st.alloc(HList(r.t, r.elem)), st)]
+            raise Undecided('list comprehension of unsupported shape: %s' % ast.unparse(node), node)
+        if self.pure:
+            r = reclists.field_seq_of_comprehension(self, node, st)
+            if r is not None and r[0] != 'empty':
+                return [(VSeq(r[0], r[1]), st)]
+            if r is not None:
+                return [(st.alloc(HPyList([])), st)]
+            r = reclists.comprehension_over_reclist(self, node, st)
+            if r is not None:
+                return [(r, st)]
+        raise Undecided('list comprehension of unsupported shape: %s' % ast.unparse(node), node)
+
+    def reclist_by_base(self, base, st):
+        rl = st.ghost.get('__reclists__', {}).get(base)
+        if rl is None:
+            raise Undecided('unknown record list %r' % (base,))
+        return rl
 
     def unpack(self, v, n, st, node=None):
         if isinstance(v, VTuple):
@@ -398,6 +456,25 @@ class Exec(Engine):
         # iteration over a symbolic sequence: quantify over the index
         try:
             v = self.ev1(it, st)
+        except Undecided:
+            return None
+        if isinstance(comp.target, ast.Name):
+            from . import reclists
+            name = comp.target.id
+            o = st.heap.get(v.loc) if isinstance(v, VRef) else None
+            if isinstance(o, HRecSeq):
+                var = smt.bound(self.ctx, 'ix', INT)
+                return (var, And(Le(IntV(0), var), Lt(var, o.n)),
+                        (lambda s, v=v, o=o: s.bind(name, reclists.element_view(self, v, o, var, s))))
+            if isinstance(o, HIdxList):
+                var = smt.bound(self.ctx, 'ix', INT)
+                return (var, And(Le(IntV(0), var), Lt(var, Len(o.idx))),
+                        (lambda s, o=o: s.bind(name, reclists.idx_element(self, o, var, s))))
+            if isinstance(v, VRecList):
+                var = smt.bound(self.ctx, 'ix', INT)
+                return (var, And(Le(IntV(0), var), Lt(var, v.n)),
+                        (lambda s, v=v: s.bind(name, self.rec_element(v, var, s))))
+        try:
             seq, elem = self.seq_of(v, st)
         except Undecided:
             return None
@@ -503,7 +580,7 @@ class Exec(Engine):
             return self.call_model('str.' + name, [recv] + args, kwargs, st, node)
         if isinstance(recv, VRef):
             o = st.heap[recv.loc]
-            if isinstance(o, (HList, HPyList, HObjList)):
+            if isinstance(o, (HList, HPyList, HObjList, HRecSeq, HIdxList)):
                 return self.call_model('list.' + name, [recv] + args, kwargs, st, node)
             if isinstance(o, (HDict, HMap)):
                 return self.call_model('dict.' + name, [recv] + args, kwargs, st, node)
@@ -515,6 +592,10 @@ class Exec(Engine):
             return self.call_model('list.' + name, [recv] + args, kwargs, st, node)
         if isinstance(recv, VTuple):
             return self.call_model('tuple.' + name, [recv] + args, kwargs, st, node)
+        if isinstance(recv, VVal):
+            self.trusted_used.add('opaque-object-method: a method call on an opaque value (config.get ...) returns an '
+                                  'unconstrained value, raises nothing and has no effect on the verified state')
+            return [(VVal(self.ctx.fresh('opq_' + name, sort_of(('val',)))), st)]
         raise Undecided('method %s on %r' % (name, recv), node)
 
     def call_model(self, key, args, kwargs, st, node):
@@ -524,6 +605,11 @@ class Exec(Engine):
         return m(self, args, kwargs, st, node)
 
     def call_method_on_instance(self, ref, o, name, args, kwargs, st, node):
+        if o.cls in C.DICT_RECORDS and name == 'get' and args and isinstance(args[0], VStr) and args[0].t.lit is not None:
+            k = args[0].t.lit[1]
+            if k in o.fields:
+                return [(o.fields[k], st)]
+            return [(args[1] if len(args) > 1 else NONE, st)]
         im = self.method_models.get('%s.%s' % (o.cls, name))
         if im is not None:
             return im(self, [ref] + args, kwargs, st, node)
@@ -665,6 +751,20 @@ class Exec(Engine):
         bound = self.bind_params(fnode.args, self.defaults_of(fn) if fn is not None else {}, args, kwargs, st, node)
         if c.trusted:
             self.trusted_used.add('contract:' + c.qualname)
+        if self.pure:
+            # under a binder / inside a clause only *functional* contracts can be used: the call denotes
+            # the expression the contract gives (its definedness condition is collected for the caller)
+            if 'functional' not in c.opts:
+                raise Undecided('call of %s in a pure context needs a functional contract' % c.qualname, node)
+            saved = (self.module, self.modname)
+            try:
+                self.modname = c.module
+                self.module = importlib.import_module(c.module)
+                if c.opts.get('defined_when'):
+                    self.pending_defined.append(self.clause(c.opts['defined_when'], st, bound))
+                return [(self.term(c.opts['functional'], st, bound), st)]
+            finally:
+                self.module, self.modname = saved
         pre_state = st.copy()
         saved = (self.module, self.modname)
         try:
@@ -816,7 +916,7 @@ class Exec(Engine):
                         fields[n.attr] = self.fresh_like(cur, '%s_%s' % (base, n.attr), st)
                     else:
                         raise Undecided('cannot havoc undeclared field %s' % expr, node)
-                    st.heap[owner.loc] = HInst(o.cls, fields)
+                    st.heap[owner.loc] = HInst(o.cls, fields, o.view)
                     return
             v = self.ev1(n, s)
         finally:
@@ -836,7 +936,9 @@ class Exec(Engine):
                 st.heap[v.loc] = HDict({k: self.fresh_like(x, '%s_%s' % (base, k), st) for k, x in o.entries.items()})
                 return
             if isinstance(o, HInst):
-                st.heap[v.loc] = HInst(o.cls, {k: self.fresh_like(x, '%s_%s' % (base, k), st) for k, x in o.fields.items()})
+                st.heap[v.loc] = HInst(o.cls, {k: self.fresh_like(x, '%s_%s' % (base, k), st) for k, x in o.fields.items()}, o.view)
+                return
+            if isinstance(o, HOpaque):
                 return
         raise Undecided('cannot havoc %r' % (v,), node)
 
@@ -1000,7 +1102,7 @@ class Exec(Engine):
                 o = st.heap[owner.loc]
                 f = dict(o.fields)
                 f[t.attr] = v
-                st.heap[owner.loc] = HInst(o.cls, f)
+                st.heap[owner.loc] = HInst(o.cls, f, o.view)
                 return
             import types as _types
             if isinstance(owner, VPy) and isinstance(owner.obj, _types.ModuleType):
@@ -1028,6 +1130,12 @@ class Exec(Engine):
     def store_subscript(self, owner, key, v, st, node):
         if isinstance(owner, VRef):
             o = st.heap[owner.loc]
+            if isinstance(o, HOpaque):
+                return
+            if isinstance(o, HDict) and not o.entries and isinstance(key, VRef):
+                # a dict keyed by objects (timings per example): write-only as far as the engine is concerned
+                st.heap[owner.loc] = HOpaque('dict keyed by objects')
+                return
             if isinstance(o, HDict) and isinstance(key, VStr):
                 if key.t.lit is not None:
                     e = dict(o.entries)
@@ -1197,7 +1305,7 @@ class Exec(Engine):
                     if isinstance(v, VOptSym):
                         f = dict(o.fields)
                         f[attr.attr] = NONE if is_none else v.val
-                        st.heap[owner.loc] = HInst(o.cls, f)
+                        st.heap[owner.loc] = HInst(o.cls, f, o.view)
             return
         v = st.frames[st.cur].get(name)
         if isinstance(v, VOptSym):
@@ -1399,6 +1507,14 @@ class Exec(Engine):
             if isinstance(v, VRecList):
                 out.append((('sym', v.n, v.getter(self)), s))
                 continue
+            if isinstance(v, VRef) and isinstance(s.heap.get(v.loc), (HRecSeq, HIdxList)):
+                from . import reclists
+                o = s.heap[v.loc]
+                if isinstance(o, HRecSeq):
+                    out.append((('sym', o.n, (lambda i, s_, v=v, o=o: reclists.element_view(self, v, o, i, s_))), s))
+                else:
+                    out.append((('sym', Len(o.idx), (lambda i, s_, o=o: reclists.idx_element(self, o, i, s_))), s))
+                continue
             seq, elem = self.seq_of(v, s)
             out.append((('sym', Len(seq), (lambda i, s_, seq=seq, elem=elem: wrap(smt.At(seq, i), elem))), s))
         return out
@@ -1479,6 +1595,16 @@ class Exec(Engine):
                     n = self.ctx.fresh(name + '_len', INT)
                     st.assume(Ge(n, IntV(0)))
                     st.frames[st.cur][name] = st.alloc(HObjList(n, self.exc_class(tyname[8:-1])))
+                elif tyname.startswith('idxlist['):
+                    # references into the record list held by the named variable
+                    self.pure += 1
+                    try:
+                        basev = self.ev1(ast.parse(tyname[8:-1], mode='eval').body, st)
+                    finally:
+                        self.pure -= 1
+                    if not isinstance(basev, VRecList):
+                        raise Undecided('idxlist[%s]: not a record list' % tyname[8:-1], node)
+                    st.frames[st.cur][name] = st.alloc(HIdxList(basev, self.ctx.fresh(name + '_idx', '(Seq Int)')))
                 else:
                     st.frames[st.cur][name] = self.fresh(parse_type(tyname), name, st)
                 continue
@@ -1695,6 +1821,9 @@ class Exec(Engine):
                     ufields.append(item)
         defaults = self.defaults_of(fn) if fn is not None else {}
         names = [a.arg for a in fnode.args.posonlyargs + fnode.args.args + fnode.args.kwonlyargs]
+        if 'region' in c.opts:
+            # a region of a long function: the live-in locals are the declared parameters
+            names = list(c.params)
         result = []
         for combo in itertools.product(*[range(n) for _, n in ufields]):
             self.union_choice = {name: k for (name, _), k in zip(ufields, combo)}
@@ -1734,6 +1863,9 @@ class Exec(Engine):
 
     def rec_element(self, rl, i, st):
         """Read-only view of element i of a symbolic list of records: field f is (f_arr i)."""
+        regs = dict(st.ghost.get('__reclists__', {}))
+        regs[rl.base] = rl
+        st.ghost['__reclists__'] = regs
         cache = st.ghost.setdefault('__views__', {})
         key = (rl.base, i.s)
         if key in cache and cache[key] in st.heap:
@@ -1760,7 +1892,11 @@ class Exec(Engine):
             return wrap(self.ctx.app(self.ctx.fun(name, [INT], sort_of(p)), i), p)
         if p[0] == 'list' and p[1][0] in ('int', 'bool', 'str'):
             return st.alloc(HList(self.ctx.app(self.ctx.fun(name, [INT], sort_of(p)), i), p[1]))
-        raise Undecided('record list field %s of type %r' % (f, p))
+        if p[0] == 'obj' and p[1] in C.RECORDS:
+            # nested record: its fields are functions of the same index
+            vals = {g: self.field_fn(base, f + '__' + g, parse_type(gty), i, st) for g, gty in C.RECORDS[p[1]].items()}
+            return st.alloc(HInst(p[1], vals, view=(base + '.' + f, i)))
+        return VUntracked('field %s of an element of a record list (type %r)' % (f, p))
 
     def verify_function(self, c):
         """Generate all obligations of one function against its contract."""
@@ -1792,7 +1928,7 @@ class Exec(Engine):
             for name, text in c.reach:
                 self.covers.append(self.oblige('reach', name, st, self.clause(text, st, params), fnode, expect='sat'))
             entry = self.entry_state
-            for kind, payload, s in self.run_block(fnode.body, st):
+            for kind, payload, s in self.run_block(self.region_body(c, fnode), st):
                 self.stats['paths'] += 1
                 self.iter_state = s.ghost.get('__last_iter__')
                 if c.modifies is not None:
@@ -1807,11 +1943,64 @@ class Exec(Engine):
                         if when is not None and not clsname.endswith('?'):
                             self.oblige('post', 'no-%s' % clsname.rstrip('*'), s,
                                         Not(self.clause(when, s, b, old=entry)), fnode)
+                    # facts about the function's own locals at a normal exit (not visible to callers)
+                    for name, text in c.opts.get('exit_facts', ()):
+                        self.oblige('exit-fact', name, s, self.inv_clause(text, s, entry), fnode)
                 elif kind == 'raise':
                     self.check_raise(c, payload, s, params, entry, fnode)
                 else:
                     raise Undecided('break/continue escaped %s' % c.qualname)
         return self.obligations[n_before:]
+
+    def region_body(self, c, fnode):
+        """The statements under verification: the whole body, or -- for a contract with opts['region'] --
+        the top-level statements from the one whose source starts with region['from'] to the end,
+        minus those whose source starts with an entry of region['drop'] (mechanical extraction;
+        what is dropped is stated by the contract and repeated in the evidence)."""
+        reg = c.opts.get('region')
+        if not reg:
+            return fnode.body
+        srcs = [ast.unparse(n) for n in fnode.body]
+        starts = [k for k, t in enumerate(srcs) if t.startswith(reg['from'])]
+        if len(starts) != 1:
+            raise Undecided('region start %r found %d times in %s' % (reg['from'], len(starts), c.qualname))
+        out = []
+        dropped = set()
+        drops = tuple(reg.get('drop', ()))
+
+        class Drop(ast.NodeTransformer):
+            def generic_visit(self, node):
+                for field in ('body', 'orelse', 'finalbody'):
+                    stmts = getattr(node, field, None)
+                    if isinstance(stmts, list) and stmts and isinstance(stmts[0], ast.stmt):
+                        kept = []
+                        for st_ in stmts:
+                            src = ast.unparse(st_)
+                            hit = [d for d in drops if src.startswith(d)]
+                            if hit:
+                                dropped.update(hit)
+                                continue
+                            kept.append(self.visit(st_))
+                        if not kept and field == 'body':
+                            kept = [ast.copy_location(ast.Pass(), stmts[0])]
+                        setattr(node, field, kept)
+                for h in getattr(node, 'handlers', []) or []:
+                    self.visit(h)
+                return node
+
+        import copy as _copy
+        for k in range(starts[0], len(srcs)):
+            hit = [d for d in drops if srcs[k].startswith(d)]
+            if hit:
+                dropped.update(hit)
+                continue
+            out.append(Drop().visit(_copy.deepcopy(fnode.body[k])))
+        missing = set(drops) - dropped
+        if missing:
+            raise Undecided('region of %s: statements to drop not found: %r' % (c.qualname, sorted(missing)))
+        self.trusted_used.add('region:%s verified from %r to the end of the function, dropping %r; live-in locals are parameters'
+                              % (c.qualname, reg['from'], list(reg.get('drop', ()))))
+        return out
 
     def check_frame(self, c, entry, s, params, fnode, kind):
         """Frame obligations: every heap object / global cell that existed at entry and is not named
@@ -2026,6 +2215,8 @@ class Exec(Engine):
 
 
 ALWAYS_INLINE = {
+    'xdoctest.doctest_example:DocTest.valid_testnames',
+    'xdoctest.doctest_example:DocTest.unique_callname',
     'xdoctest.doctest_part:DoctestPart.want',
     'xdoctest.doctest_part:DoctestPart.n_lines',
     'xdoctest.doctest_part:DoctestPart.n_exec_lines',
@@ -2038,6 +2229,16 @@ def StrV_(k):
     return VStr(StrV(k))
 
 
+class VUntracked(V):
+    """A value the engine does not track; any use makes the function undecided."""
+
+    def __init__(self, what):
+        self.what = what
+
+    def __repr__(self):
+        return 'VUntracked(%s)' % self.what
+
+
 class VIter(V):
     def __init__(self, items):
         self.items = items
@@ -2046,10 +2247,11 @@ class VIter(V):
 class VRecList(V):
     """Symbolic-length list of records; field f of element i is (f_arr i)."""
 
-    def __init__(self, n, cls, base):
+    def __init__(self, n, cls, base, full_n=None):
         self.n = n
         self.cls = cls
         self.base = base
+        self.full_n = full_n if full_n is not None else n    # length of the underlying list (n < full_n for a prefix)
 
     def getter(self, eng):
         def get(i, st):
